@@ -110,6 +110,11 @@ fn front_end(entry: Entry, text: &str, with_ffi: bool, notes: &mut Vec<(String, 
             let ffi = real_ffi();
             let mut variants: Vec<(u64, Compiler<'_>)> = vec![(2, Compiler::new(&ast).debug(true)), (3, Compiler::new(&ast).debug(false))];
             if with_ffi {
+                // documents: the plain compilers stop at the first `use`, so they are only kept
+                // for documents without FFI imports
+                if !ast.ffi_imports.is_empty() {
+                    variants.clear();
+                }
                 variants.push((4, Compiler::new(&ast).ffi_modules(&ffi).debug(true)));
                 variants.push((5, Compiler::new(&ast).stub_ffi(true).debug(true)));
             }
@@ -328,12 +333,14 @@ const MD_LINES: &[&str] = &[
 ];
 
 pub struct MdSpace {
+    /// documents of this many lines or more are only generated with a trailing newline
+    both_endings_below: usize,
     max_lines: usize,
     layout: Vec<(usize, u64, u64)>,
 }
 
 impl MdSpace {
-    fn new(max_lines: usize) -> Self {
+    fn new(max_lines: usize, both_endings_below: usize) -> Self {
         let k = MD_LINES.len() as u64;
         let mut layout = Vec::new();
         let mut first = 0;
@@ -342,7 +349,7 @@ impl MdSpace {
             layout.push((len, n, first));
             first += n;
         }
-        MdSpace { max_lines, layout }
+        MdSpace { both_endings_below, max_lines, layout }
     }
     fn text_of(&self, u: u64, c: u64) -> Option<String> {
         let k = MD_LINES.len() as u64;
@@ -351,6 +358,9 @@ impl MdSpace {
             return None;
         }
         let trailing_newline = c % 2 == 0;
+        if !trailing_newline && len >= self.both_endings_below {
+            return None;
+        }
         let mut cc = c / 2;
         let mut idx = Vec::new();
         let mut p = u - first;
@@ -512,7 +522,7 @@ impl DocMutSpace {
                 units.push((i, 3, ch));
             }
         }
-        DocMutSpace { docs, toks, units, chunk, trunc_stride_big: if thorough { 1 } else { 4 } }
+        DocMutSpace { docs, toks, units, chunk, trunc_stride_big: if thorough { 1 } else { usize::MAX } }
     }
     fn mutate(&self, u: u64, c: u64) -> Option<(String, String)> {
         let (di, kind, ch) = self.units[u as usize];
@@ -537,7 +547,7 @@ impl DocMutSpace {
                 if i > text.len() || !text.is_char_boundary(i) {
                     return None;
                 }
-                // quick tier: big documents are cut at every token boundary and every 4th byte
+                // quick tier: big documents are cut at every token boundary only
                 if text.len() > 3000 && self.trunc_stride_big > 1 && i % self.trunc_stride_big != 0 && !t.iter().any(|&(a, b)| a == i || b == i) {
                     return None;
                 }
@@ -712,8 +722,8 @@ pub fn space_by_name(name: &str, args: &Args) -> Box<dyn Space> {
         "tok-stmt-policy" => Box::new(TokSpace::new("tok-stmt-policy", Entry::Str, T_STMT_POLICY, V_STMT, if t { 4 } else { 3 })),
         "tok-stmt-finish" => Box::new(TokSpace::new("tok-stmt-finish", Entry::Str, T_STMT_FINISH, V_STMT, if t { 4 } else { 3 })),
         "tok-top" => Box::new(TokSpace::new("tok-top", Entry::Str, "", V_TOP, if t { 5 } else { 4 })),
-        "tok-type" => Box::new(TokSpace::new("tok-type", Entry::Str, T_TYPE, V_TYPE, if t { 6 } else { 5 })),
-        "md" => Box::new(MdSpace::new(if t { 5 } else { 4 })),
+        "tok-type" => Box::new(TokSpace::new("tok-type", Entry::Str, T_TYPE, V_TYPE, if t { 6 } else { 4 })),
+        "md" => Box::new(MdSpace::new(if t { 5 } else { 4 }, if t { 5 } else { 4 })),
         "docmut" => Box::new(DocMutSpace::new(t)),
         "ladder" => Box::new(LadderSpace { shapes: shapes(), max_depth: if t { 200 } else { 64 } }),
         n => mcx::machinery_error(&format!("C27: unknown space {n}")),
@@ -748,7 +758,7 @@ pub fn run(args: &Args) {
     rep.set(
         "rule",
         format!(
-            "token strings (joined by single spaces) of every length ≤L over per-context vocabularies: bare expression L={} ({} tokens, parse_expression), top level L={} ({} tokens), expression / statement-in-function / -action / -policy / -finish templates L={} ({} / {} tokens), type position L={} ({} tokens); Markdown documents of ≤{} lines over {} line kinds (with and without trailing newline); every policy document under crates/ (*.md with front matter, *.policy): unmodified, every token deleted / duplicated / swapped with its successor, every byte truncation (quick: documents >3000 bytes at token boundaries and every 4th byte); {} nesting shapes at every depth 1..={} on an {} MiB main-thread stack. Every AST returned by the parser is compiled (debug on/off; documents also with the real FFI schemas and stub_ffi). non-trivial = distinct texts accepted by the grammar (reached the AST builder / compiler)",
+            "token strings (joined by single spaces) of every length ≤L over per-context vocabularies: bare expression L={} ({} tokens, parse_expression), top level L={} ({} tokens), expression / statement-in-function / -action / -policy / -finish templates L={} ({} / {} tokens), type position L={} ({} tokens); Markdown documents of ≤{} lines over {} line kinds (with and without trailing newline; quick: 4-line documents only with); every policy document under crates/ (*.md with front matter, *.policy): unmodified, every token deleted / duplicated / swapped with its successor, every byte truncation (quick: documents >3000 bytes at token boundaries only); {} nesting shapes at every depth 1..={} on an {} MiB main-thread stack. Every AST returned by the parser is compiled (debug on/off; documents also with the real FFI schemas and stub_ffi). non-trivial = distinct texts accepted by the grammar (reached the AST builder / compiler)",
             if t { 5 } else { 4 },
             V_EXPR.len(),
             if t { 5 } else { 4 },
@@ -756,7 +766,7 @@ pub fn run(args: &Args) {
             if t { 4 } else { 3 },
             V_EXPR.len(),
             V_STMT.len(),
-            if t { 6 } else { 5 },
+            if t { 6 } else { 4 },
             V_TYPE.len(),
             if t { 5 } else { 4 },
             MD_LINES.len(),
